@@ -106,7 +106,7 @@ CHECKS = {
             "temperature lies between the model's minimum temperature and the background, and equals the minimum temperature on the "
             "slab top; the McKenzie series of the slab plate model vanishes on both slab surfaces; every truncated plate series stays "
             "within (bottom - top) x the amplitude sum of its terms of [top, bottom] (C20_plate_series_overshoot), for the constant-age "
-            "model at most n*(2/pi)*exp(-pi^2*kappa*age/max_depth^2) (C20_constant_age_overshoot; checked on every constant-age ladder). "
+            "model at most n*(2/pi)*exp(-pi^2*kappa*age/max_depth^2) (C20_constant_age_overshoot), for the ridge-age model with the first term's exponent (C20_ridge_age_overshoot); the bound is checked on every plate-model ladder. "
             "Not proved (false for a truncated series near the ridge, known finding D15 for kappa*age/max_depth^2 < 1e-3): the strict "
             "envelope of the series; searched: the heat anomaly above the slab top and the "
             "plate reference of the mass-conserving model (searched). Tie: bit-exact correspondence of the cooling models; "
